@@ -198,3 +198,29 @@ Qed.
 Print Assumptions result_rule.
 Print Assumptions unset_rule.
 Print Assumptions exit_rule.
+
+(* ---------- hex-encoded fields: the bytes come back, NULs as blanks ---------- *)
+Definition nul_to_space (bs : str) : str := map (fun c => if Ascii.eqb c nul then " "%char else c) bs.
+
+Lemma split_on_nonempty c : forall s cur, split_on c s cur <> [].
+Proof. induction s as [|x r IH]; intros cur; cbn [split_on]; try discriminate. destruct (Ascii.eqb x c); [discriminate|apply IH]. Qed.
+
+Lemma join_cons (sep x : str) l : l <> [] -> join sep (x :: l) = x ++ sep ++ join sep l.
+Proof. destruct l; [contradiction|reflexivity]. Qed.
+
+Lemma join_split_nul : forall s cur, join (L " ") (split_on nul s cur) = rev cur ++ nul_to_space s.
+Proof.
+  induction s as [|x r IH]; intros cur; cbn [split_on nul_to_space map].
+  - cbn [join]. rewrite app_nil_r. reflexivity.
+  - destruct (Ascii.eqb x nul) eqn:E.
+    + rewrite join_cons by apply split_on_nonempty. rewrite IH. cbn [rev app L list_ascii_of_string]. reflexivity.
+    + rewrite IH. cbn [rev]. rewrite <- app_assoc. reflexivity.
+Qed.
+
+Theorem hex_field_decodes k m bs v0 : kv_get (L k) m = Some (Hex.hex_upper bs, v0) ->
+  exists m', hex_field k m = Some m' /\ kv_get (L k) m' = Some (Hex.hex_upper bs, nul_to_space bs).
+Proof.
+  intros H. unfold hex_field. rewrite H. unfold hex_to_strings, hex_decode. rewrite Hex.decode_hex_roundtrip. cbn [option_map].
+  eexists. split; [reflexivity|]. unfold kv_setval. rewrite H, kv_get_add_same. rewrite join_split_nul. reflexivity.
+Qed.
+Print Assumptions hex_field_decodes.
